@@ -2150,6 +2150,14 @@ impl MetadataClient for ObjectStoreMetadataClient {
             .values()
             .any(|s| matches!(s.phase, SplitPhase::DualWrite | SplitPhase::Backfill)))
     }
+
+    async fn pending_split_targets(&self) -> Result<Vec<String>> {
+        let (states, _) = self.load_split_states_with_etag().await?;
+        Ok(states
+            .values()
+            .flat_map(|s| s.new_shards.iter().cloned())
+            .collect())
+    }
 }
 
 pub type S3MetadataConfig = ObjectStoreMetadataConfig;
